@@ -64,7 +64,8 @@ def run(ctx):
             tasks.append(dict(fn='channels', kw=dict(design=d, simname=sim, seed=ctx.seed)))
         for k in (0, 1, 3, 6):
             tasks.append(dict(fn='assertions', kw=dict(simname=sim, fail_at=k)))
-        for exc in ('PyrtlError', 'PyrtlInternalError', 'ValueError', 'LookupError', 'AttributeError'):
+        for exc in ('PyrtlError', 'PyrtlInternalError', 'ValueError', 'LookupError', 'AttributeError', 'KeyError',
+                    'KeyErrorSubclass'):
             tasks.append(dict(fn='assertions', kw=dict(simname=sim, fail_at=2, exc=exc)))
         for bw in (1, 4, 63, 64, 65, 130):
             tasks.append(dict(fn='illegal_inputs', kw=dict(simname=sim, bw=bw)))
@@ -73,6 +74,8 @@ def run(ctx):
                 tasks.append(dict(fn='illegal_mid_sequence', kw=dict(simname=sim, k=k, with_expected=we)))
     for d in fam + wide + [{'name': 'vcd_names', 'params': {'w': 3}}, {'name': 'vcd_names', 'params': {'w': 1}}]:
         tasks.append(dict(fn='printers', kw=dict(design=d, seed=ctx.seed)))
+    for sd in (0, 1, 2):
+        tasks.append(dict(fn='compiled_after_direct_connect', kw=dict(seed=ctx.seed + sd)))
     for sim in SIMS:
         for warm in (1, 3):
             tasks.append(dict(fn='step_multiple_after_warmup', kw=dict(simname=sim, warm=warm)))
@@ -100,6 +103,7 @@ def run(ctx):
                                       'stop_after_first_error',
                           'printers': 'print_trace bases 2/8/10/16 (+compact) and print_vcd parsed back',
                           'assertions': 'assert wire falls at cycle k in {0,1,3,6}',
+                          'compiled_after_direct_connect': 'CompiledSimulation trace / inspect vs Simulation on a block whose Outputs are driven directly by logic nets, 3 stimuli',
                           'step_multiple_after_warmup': 'step_multiple with expected outputs after 1 / 3 earlier cycles: no report for correct expectations, exactly one row for one wrong expectation',
                           'illegal_mid_sequence': 'step_multiple with an illegal value at step 1, 2, 5, with/without expected_outputs, vs single stepping',
                           'illegal_inputs': 'bitwidths 1,4,63,64,65,130 x {0,2^bw-1,2^(bw-1),2^bw,2^bw+5,-1,-2^bw,2^(bw+64)}'}[fn],
